@@ -252,6 +252,12 @@ func (w *recWriter) Write(p []byte) (int, error) {
 	cp := append([]byte{}, p...)
 	w.calls = append(w.calls, cp)
 	if w.failAt > 0 && len(w.calls) == w.failAt {
+		if w.accept < 0 {
+			// a writer that took everything and still reports an error (allowed by the io.Writer contract)
+			w.out = append(w.out, p...)
+			w.failed = true
+			return len(p), errInjected
+		}
 		n := w.accept
 		if n > len(p) {
 			n = len(p)
